@@ -3,6 +3,7 @@
    session is established (C02, C03, C17). *)
 From Coq Require Import Arith ZArith Lia ZifyBool ZifyN ZifyNat.
 From Minimq Require Import Util Bytes Varint Utf8 Props Ser De Reader Arena Core.
+From Minimq Require Import PacketShape.
 From Minimq Require Import ArenaLemmas SerLemmas ArenaOps Inv Lts Quota Status.
 
 Definition clear_bit3 (x : N) : N := if N.testbit x 3 then x - 8 else x.
@@ -133,7 +134,7 @@ Proof.
   intros s p pid ub I Hn H. pose proof (oi_arena _ (inv_ob _ I)) as W.
   destruct p; cbn [handle_packet names] in *; try exact H.
   - destruct q; [exact H| |]; destruct pid0; try exact H; try (apply has_entry_queue_ctl; exact H).
-    destruct (mem_id _ _); [apply has_entry_queue_ctl; exact H|]. destruct (_ <=? _); apply has_entry_queue_ctl; exact H.
+    q2_split; apply has_entry_queue_ctl; exact H.
   - pose proof (has_entry_ack_other (s_ob s) pid pid0 ub W ltac:(congruence) H) as Ha.
     destruct (ack_packet _ _) as [o f]. cbn [fst] in Ha. destruct f; cbn [negb]; [|exact H]. destruct (rc_success _); exact Ha.
   - pose proof (has_entry_ack_other (s_ob s) pid pid0 ub W ltac:(congruence) H) as Ha.
